@@ -8,6 +8,7 @@ open Lean PdeVerif PdeVerif.Interrupts PdeVerif.Controller PdeVerif.StepMaps
 c07.run (also used by C08)
 {"mode":"Q"|"F", ["stepper":"exact","fuel":n,] "dt":x, "t_start":x, "t_end":x, "eps":x, "u0":x,
  "eq":"one"|"time"|"timeshift" (+"shift":x)      -- the scheme's exact one-step map for u'=1, u'=t: u + dt*(t + shift)
+     |"hook" (+"a":x)                             -- u'=1 and a post-step hook with persistent data: data += 1; u += a*data
      |"lin"|"lint" (+"a":x)                       -- u' = a*u, u' = a*u + t: the solver's own operations (Model/StepMaps.lean)
  ["solver":"euler"|"runge-kutta"|"implicit"|"crank-nicolson"|"adams-bashforth", "cells":n, "maxiter":n, "maxerr2":x,]
  "trackers":[{"kind":"callback"|"storage"|"data",
@@ -108,6 +109,12 @@ def runJson (getK : Json → Except String K) (putK : K → Json) (j : Json) : E
     | "timeshift" => do
       let c ← getK (← fld j "shift")
       pure (lift (fun u t => u + dt * (t + c)), some (u0, u0))
+    | "hook" => do
+      -- u' = 1 with a post-step hook that counts the steps in `post_step_data` (second component of the solver
+      -- state: it lives in `solver.info` between stepper calls): `data += 1; state += a * data`
+      let a ← getK (← fld j "a")
+      pure (fun s _ => s.map (fun p => let k := p.2 + ((1 : Nat) : K); (p.1 + dt * ((1 : Nat) : K) + a * k, k)),
+            some (u0, ((0 : Nat) : K)))
     | "lin" => do schemeOf (rateLin (← getK (← fld j "a")))
     | "lint" => do schemeOf (rateLinT (← getK (← fld j "a")))
     | s => throw s!"unknown equation {s}")
